@@ -6,7 +6,7 @@ TRUSTED = BASE_TRUSTED + ["soundness is proved as: decision characterisation, sp
 RULE = ("all (sk, ciphertext) over the 121 ciphertexts of p=23 (quick: every sk, ciphertext slice) through decrypt_and_prove and "
         "verify_decryption; wrong factors (f*g, f^2, identity), proofs moved across ciphertext / key / label at 16/62/2048 "
         "bits; wrong factors with fresh hash-consistent proofs by a malicious key holder (factor gr^(sk+y) g^(ky) with witness "
-        "sk+y for k in {1,-1,2,1/2}, wrong witness, wrong factor with its own proof); batches of size 1..8 and 70 / 530 (thorough 130, 600) with a single bad pair at every position through the crate-private "
+        "sk+y for k in {1,-1,2,1/2}, wrong witness, wrong factor with its own proof); batches of size 1..8, 32, 64, 70, 128, 530, 1024 (thorough up to 2048; exact multiples of block sizes included, bad pair at every block boundary counted from both ends) with a single bad pair at every position through the crate-private "
         "Keymaker::verify_decryption_factors (hook); threshold::decryption_factor with share and verification key; "
         "every output and decision compared with the Gallina model")
 
@@ -108,7 +108,9 @@ def run(env):
         for pstr in ("2039", str(P62)):
             ctx = "%s:%s" % (fl, pstr); P_, q_, g_ = pq(ctx)
             sk = r.randrange(1, q_); pk = str(pow(g_, sk, P_))
-            for size in (list(range(1, 9)) + [130, 600] if not env.quick else (1, 2, 3, 8) + ((70,) if pstr == "2039" else (530,))):
+            # sizes include exact multiples of plausible block sizes (32, 64, 128, 256, 1024): a verifier that works in blocks
+            # must still look at the last full block
+            for size in (list(range(1, 9)) + [32, 64, 96, 130, 256, 600, 1024, 2048] if not env.quick else (1, 2, 3, 8) + ((32, 64, 70) if pstr == "2039" else (128, 530, 1024))):
                 cs = [[str(rnd_member(r, ctx)), str(rnd_member(r, ctx))] for _ in range(size)]
                 st3.append({"ctx": ctx, "op": "km_decryption_factor_many", "args": [str(sk), cs, "x:62", script(r, 64 * size + 256)], "_pk": pk, "tag": "batch"})
     o3 = env.harness(st3)
@@ -122,7 +124,8 @@ def run(env):
             if len(cs) <= 8 or i % 97 == 0 or i == len(cs) - 1:
                 items.append((c, ctx, "km_decryption_factor_r", [c["args"][0], ct, c["args"][2], d], [f, pf]))
         st4.append({"ctx": ctx, "op": "verify_decryption_factors", "args": [c["_pk"], cs, fs, pfs, c["args"][2]], "_want": True, "tag": "batch-honest"})
-        for pos in (range(len(cs)) if len(cs) <= 8 else sorted({0, 1, 15, 16, 31, 32, 63, 64, 255, 256, 511, 512, len(cs) // 2, len(cs) - 2, len(cs) - 1} & set(range(len(cs))))):
+        for pos in (range(len(cs)) if len(cs) <= 8 else sorted(({0, 1, len(cs) // 2, len(cs) - 2, len(cs) - 1} | {b + d for b in (16, 32, 64, 128, 256, 512, 1024) for d in (-1, 0)}
+                                                                          | {len(cs) - b + d for b in (16, 32, 64, 128, 256, 512, 1024) for d in (-1, 0, 1)}) & set(range(len(cs))))):
             bad = list(fs); bad[pos] = str((int(bad[pos]) * g_) % P_)
             st4.append({"ctx": ctx, "op": "verify_decryption_factors", "args": [c["_pk"], cs, bad, pfs, c["args"][2]], "_want": False if pstr_big(ctx) else None, "tag": "batch-bad@%d" % pos})
             bp = list(pfs); bp[pos] = [bp[pos][0], bp[pos][1], bp[pos][2], str((int(bp[pos][3]) + 1) % q_)]
